@@ -361,6 +361,38 @@ def with_layout(a: np.ndarray, layout: str) -> np.ndarray:
 
 
 @st.composite
+def tie_instance_pair(draw):
+    """Instance maps (1-D, or one row of a 2-D array) built from blocks; in a 'tie' block one reference
+    instance of 6 voxels overlaps two prediction instances with exactly equal IoU (2/6 = 3/9) and Dice
+    (4/8 = 6/12) but different volume and distance, so the result shows which candidate won the tie.
+    Prediction labels are a drawn permutation, i.e. unrelated to positions."""
+    blocks = draw(st.lists(st.sampled_from(["simple", "tie", "tie", "tie_mirrored"]), min_size=1, max_size=4))
+    ref, pred = [0], [0]
+    nr = npd = 0
+    for b in blocks:
+        if b == "simple":
+            r, q = [1, 1, 1, 0], [0, 1, 1, 1]
+        else:
+            r, q = [1, 1, 1, 1, 1, 1, 0, 0, 0], [1, 1, 0, 2, 2, 2, 2, 2, 2]
+            if b == "tie_mirrored":
+                r, q = r[::-1], q[::-1]
+        nr += 1
+        ref += [nr * x for x in r] + [0, 0]
+        pred += [(npd + x) if x else 0 for x in q] + [0, 0]
+        npd += max(q)
+    perm = draw(st.permutations(list(range(1, npd + 1))))
+    pred = [perm[x - 1] if x else 0 for x in pred]
+    pa, ra = np.array(pred, dtype=np.int64), np.array(ref, dtype=np.int64)
+    if draw(st.booleans()):
+        rows, at = draw(st.integers(2, 3)), 0
+        at = draw(st.integers(0, rows - 1))
+        p2, r2 = np.zeros((rows, len(pred)), dtype=np.int64), np.zeros((rows, len(ref)), dtype=np.int64)
+        p2[at], r2[at] = pa, ra
+        pa, ra = p2, r2
+    return pa, ra
+
+
+@st.composite
 def fragment_pair(draw, ndims=(1, 2, 3)):
     """Reference instances covered by 2-4 prediction fragments, with competing references
     and stray fragments."""
